@@ -38,6 +38,20 @@ def p_matrix(r: W.Rd):
     dim, m = W.p_mat(r)
     return {"dim": dim, "m": m}
 
+# ----------------------------------------------------------------------------- poison after use
+def scribble(circ):
+    """After a result has been copied out, relabel the circuit object in place with a non-identity mapping.  Nothing the
+    library keeps (a cache, a memo, a default argument) may share objects with a circuit it handed out: if it does, the
+    next call that uses the shared object goes wrong and the tie / the oracle of whatever check runs next sees it."""
+    try:
+        from opensquirrel.mapper.mapping import Mapping
+        from opensquirrel.mapper import HardcodedMapper
+        n = circ.qubit_register_size
+        if n >= 2:
+            circ.map(HardcodedMapper(n, Mapping([(i + 1) % n for i in range(n)])))
+    except Exception:
+        pass
+
 # ----------------------------------------------------------------------------- decomposers
 DECOMPOSERS = ["XYX", "XZX", "YXY", "YZY", "ZXZ", "ZYZ", "McKay", "CNOT"]
 
@@ -56,7 +70,9 @@ def impl_decompose(d, c, lookup=W.os_lookup):
         circ.decompose(os_decomposer(d)); e = None
     except Exception as ex:
         e = err_name(ex)
-    return {"err": e, "c": W.w_circuit(circ)}
+    out = {"err": e, "c": W.w_circuit(circ)}
+    scribble(circ)
+    return out
 
 def req_dgate(d, s): return " ".join(["dgate", d] + W.t_stmt(s))
 def impl_dgate(d, s):
@@ -75,7 +91,9 @@ def impl_merge(c, lookup=W.os_lookup):
         circ.merge_single_qubit_gates(); e = None
     except Exception as ex:
         e = err_name(ex)
-    return {"err": e, "c": W.w_circuit(circ)}
+    out = {"err": e, "c": W.w_circuit(circ)}
+    scribble(circ)
+    return out
 
 # ----------------------------------------------------------------------------- scripted decomposer / replace
 def t_script(script):
@@ -124,7 +142,9 @@ def impl_replace(name, c, script, lookup=W.os_lookup):
         circ.replace(lookup(name), f); e = None
     except Exception as ex:
         e = err_name(ex)
-    return {"err": e, "c": W.w_circuit(circ), "callback_args": seen_args}
+    out = {"err": e, "c": W.w_circuit(circ), "callback_args": seen_args}
+    scribble(circ)
+    return out
 
 # ----------------------------------------------------------------------------- mapping
 def req_mapping(l): return " ".join(["mapping"] + W.t_ints(l))
@@ -251,8 +271,16 @@ def req_cmatrix(c): return " ".join(["cmatrix"] + W.t_circuit(c))
 def impl_cmatrix(c):
     from opensquirrel.circuit_matrix_calculator import get_circuit_matrix
     try:
-        m = get_circuit_matrix(W.os_circuit(c))
-        return {"err": None, "v": {"dim": int(m.shape[0]), "m": [(float(z.real), float(z.imag)) for z in m.reshape(-1)]}}
+        circ = W.os_circuit(c)
+        m = get_circuit_matrix(circ)
+        out = {"err": None, "v": {"dim": int(m.shape[0]), "m": [(float(z.real), float(z.imag)) for z in m.reshape(-1)]}}
+        # the matrix is a function of the circuit as it is now: relabel in place, ask again
+        n = circ.qubit_register_size
+        if n >= 2:
+            scribble(circ)
+            m2 = get_circuit_matrix(circ)
+            out["_after_map"] = {"perm": [(i + 1) % n for i in range(n)], "c": W.w_circuit(circ), "m": m2}
+        return out
     except Exception as ex:
         return {"err": err_name(ex), "v": None}
 
